@@ -390,8 +390,12 @@ func (c *Ctx) ord10() {
 						hdrs[q.Start] = true
 					}
 				}
-				for j, b := range p.Blocks {
-					if hdrs[b] && p.BlockEv[j] <= ie {
+				blks, blkEv := p.AllBlocks, p.AllBlockEv
+				if len(blks) != len(blkEv) || len(blks) == 0 {
+					blks, blkEv = p.Blocks, p.BlockEv
+				}
+				for j, b := range blks { // (the loop may live in a helper expanded in place)
+					if hdrs[b] && blkEv[j] <= ie {
 						loopSeen = true
 					}
 				}
@@ -484,7 +488,11 @@ func (c *Ctx) ord10() {
 				validated := p.Index(0, func(e *pathx.Event) bool {
 					return e.Kind == pathx.KCall && e.Callee != nil && validators[load.FuncName(e.Callee)]
 				}) >= 0
-				for _, b := range p.Blocks {
+				blks := p.AllBlocks
+				if len(blks) == 0 {
+					blks = p.Blocks
+				}
+				for _, b := range blks {
 					if hdrs[b] {
 						validated = true
 					}
